@@ -424,3 +424,11 @@ pub fn language_en() -> &'static Language { vrt_language_en() }
 #[cfg(not(verif_replay))]
 #[inline(never)]
 pub fn vrt_language_en() -> &'static Language { std::hint::black_box(crate::language::get_language("en").unwrap()) }
+
+/// workbook with the default style pools (cells need them) and two shared strings
+pub fn workbook_with_cells(worksheets: Vec<Worksheet>) -> Workbook {
+    let mut wb = workbook_with(worksheets, 0);
+    wb.styles = Styles::default();
+    wb.shared_strings = vec!["abc".to_string(), "123".to_string()];
+    wb
+}
